@@ -33,6 +33,61 @@ BAD_FORMULAS = [
 ]
 
 
+OWN_DAMAGE = ('cut', 'dangling', 'neg-high', 'neg-low-root')
+
+
+def _own_damaged_json(bdd, u, how):
+    """JSON dump of the held function `u` of the autoref manager `bdd`, damaged; the nodes of
+    the file coincide with nodes that are alive in the manager.  -> file name"""
+    fname = 'c17-own-%d.json' % os.getpid()
+    bdd.dump(fname, [u])
+    lines = open(fname).read().splitlines()
+    ks = [k for k, l in enumerate(lines) if l.startswith('"') and '[' in l and
+          not l.startswith('"level_of_var"') and not l.startswith('"roots"')]
+    if how == 'cut':
+        lines = lines[:max(2, len(lines) - 2)]
+    elif not ks:
+        lines = lines[:-1]
+    else:
+        k = ks[-1]
+        head, rest = lines[k].split('[', 1)
+        tail = ',' if rest.rstrip().endswith(',') else ''
+        parts = rest.rstrip().rstrip(',').rstrip(']').split(',')
+        if how == 'dangling':
+            parts[1] = ' 424242'
+        elif how == 'neg-high':
+            # the high edge complemented: not a valid node of a BDD with complemented else edges
+            hv = parts[2].strip()
+            parts[2] = ' ' + (hv[1:] if hv.startswith('-') else (
+                '"F"' if hv == '"T"' else '-' + hv))
+        else:
+            lv = parts[1].strip()
+            parts[1] = ' ' + (lv[1:] if lv.startswith('-') else (
+                '"F"' if lv == '"T"' else '-' + lv))
+            parts[2] = parts[1]
+        lines[k] = head + '[' + ','.join(parts) + ']' + tail
+    open(fname, 'w').write('\n'.join(lines) + '\n')
+    return fname
+
+
+def _interleaved_pickle(m):
+    """A pickle whose variable table interleaves acceptable entries with a conflicting one:
+    the first declared variable of `m` at its own level, a NEW variable at a free level beyond
+    the bottom, then a new variable at a level that `m` already uses."""
+    fname = 'c17-inter-%d.p' % os.getpid()
+    names = sorted(m.vars, key=m.vars.get)
+    n = len(names)
+    if n < 2:
+        raise ValueError('fault not applicable in this state')
+    vs = {names[0]: 0, '_z9': n + 1, '_y9': 1}
+    for k in range(2, n + 1):
+        vs['_f%d' % k] = k          # so that the file has n + 2 variables at levels 0..n+1
+    d = dict(vars=vs, succ={1: (n + 2, None, None)}, roots=[1])
+    with open(fname, 'wb') as f:
+        pickle.dump(d, f, protocol=2)
+    return fname
+
+
 def _clean_cwd():
     """Hygiene between fault injections: a scratch directory that an EARLIER rejected call left
     behind (reported there) must not make every later case fail as well."""
@@ -179,6 +234,15 @@ def bdd_faults(m, refs, names):
     A(('load garbage', lambda: m.load(files['garbage.p'])))
     A(('load level conflict', lambda: m.load(files['conflict.p'], levels=True)))
     A(('load dangling', lambda: m.load(files['dangling.p'], levels=False)))
+    A(('load interleaved conflict', lambda: m.load(_interleaved_pickle(m), levels=True)))
+    for how, flag in (('cut', False), ('dangling', True), ('neg-high', False),
+                      ('neg-high', True), ('neg-low-root', True)):
+        A(('load own damaged json %s %s' % (how, flag),
+           (lambda how, flag: lambda: _load_own(m, u, how, flag))(how, flag)))
+    if refs:
+        for k, s in enumerate(NODE_FORMULAS):
+            A(('add_expr bad @ #%d' % k,
+               (lambda s: lambda: m.add_expr(s.format(n=u, m=v)))(s)))
     A(('dump unknown ext', lambda: m.dump('c17-out.xyz', roots=[u])))
     A(('dump unknown root', lambda: m.dump('c17-out.p', roots=[99999])))
     A(('copy into lacking', lambda: _bdd.copy_bdd(u, m, lacking)))
@@ -193,6 +257,22 @@ def bdd_faults(m, refs, names):
     A(('configure unknown', lambda: m.configure(bogus=1)))
     A(('is_essential unknown node', lambda: m.is_essential(99999, x)))
     return F
+
+
+# rejected formulas with a VALID @node operand before the offending token
+NODE_FORMULAS = ['@{n} /\\ _nope', '@{n} /\\ /\\ @{m}', 'ite(@{n}, @{m})', '\\E _nope: @{n}',
+                 '@{n} \\/ @99999', '~ @{m} => (@{n} # )']
+
+
+def _load_own(m, u, how, flag):
+    a = S.autoref_around(m)
+    f = a._add_int(u)
+    fname = _own_damaged_json(a, f, how)
+    del f
+    try:
+        return _copy.load_json(fname, a, load_order=flag)
+    finally:
+        os.remove(fname)
 
 
 def _undeclare_used(m):
@@ -372,7 +452,9 @@ class FaultBdd(BddMachine):
                 return
             conts = [CONT[(h + 5 * k) % len(CONT)] for k in range(3)]
         if not plan and any(w in label for w in ('load', 'dump', 'json', 'pickle')):
-            conts = list(dict.fromkeys(list(conts) + list(FILE_CONT)))
+            # one dump+load of the same kind of file as the rejected call touched
+            kind_ = 'json' if 'json' in label else 'pickle'
+            conts = list(dict.fromkeys(list(conts) + [kind_]))
         for c in conts:
             a = pickle.loads(pickle.dumps(st, pickle.HIGHEST_PROTOCOL))
             b = pickle.loads(blob)
@@ -474,6 +556,18 @@ def autoref_faults(st, names):
             A(('load ' + k, (lambda p: lambda: bdd.load(p))(files[k])))
             A(('load_json order ' + k,
                (lambda p: lambda: _copy.load_json(p, bdd, load_order=True))(files[k])))
+    A(('load interleaved conflict', lambda: bdd.load(_interleaved_pickle(bdd._bdd))))
+    for how in OWN_DAMAGE:
+        if how != 'dangling':
+            A(('load own damaged json ' + how,
+               (lambda how: lambda: bdd.load(_own_damaged_json(bdd, u, how)))(how)))
+        if how != 'cut':
+            A(('load_json order own damaged json ' + how,
+               (lambda how: lambda: _copy.load_json(_own_damaged_json(bdd, u, how), bdd,
+                                                    load_order=True))(how)))
+    for k, s_ in enumerate(NODE_FORMULAS):
+        A(('add_expr bad @ #%d' % k,
+           (lambda s_: lambda: bdd.add_expr(s_.format(n=int(u), m=int(v))))(s_)))
     A(('image foreign', lambda: _autoref.image(u, ox, {x: y}, {x})))
     A(('preimage overlap', lambda: _autoref.preimage(u, v, {x: y, y: x}, {x})))
     A(('Function ctor unknown', lambda: _autoref.Function(99999, bdd)))
@@ -556,7 +650,9 @@ class FaultAutoref(AutorefMachine):
         h = sum(blob[-8:]) + fi
         conts = allc if not self.light else [allc[(h + 3 * k) % len(allc)] for k in range(2)]
         if not plan and any(w in label for w in ('load', 'dump', 'json', 'pickle')):
-            conts = list(dict.fromkeys(list(conts) + list(FILE_CONT)))
+            # one dump+load of the same kind of file as the rejected call touched
+            kind_ = 'json' if 'json' in label else 'pickle'
+            conts = list(dict.fromkeys(list(conts) + [kind_]))
         for c in conts:
             a = pickle.loads(pickle.dumps(st, pickle.HIGHEST_PROTOCOL))
             b = pickle.loads(blob)
